@@ -465,15 +465,31 @@ def _is_module_path(p: Program, fi: FuncInfo, e: ast.expr) -> bool:
 INPUT_ROOTS = ("self.vector", "self.modules", "self.elements", "param:module", "param:modules", "param:vector")
 
 
+def effective_path(site: Site) -> str:
+    """attribute/subscript path of the mutated object, seen through a local
+    alias of a qualifier list (citations = feature.qualifiers.get("citation", []))"""
+    root, path = site.path()
+    pstr = "".join(path)
+    if root and ".qualifiers" not in pstr:
+        for n in ast.walk(site.fi.node):
+            if isinstance(n, ast.Assign) and any(isinstance(t, ast.Name) and t.id == root for t in n.targets):
+                src = site.fi.module.segment(n.value) or ""
+                if ".qualifiers" in src:
+                    m = re.search(r"\.qualifiers(\.get\(\s*['\"](\w+)['\"]|\[\s*['\"](\w+)['\"]\s*\])?", src)
+                    key = (m.group(2) or m.group(3)) if m else None
+                    pstr = ".qualifiers" + ("['%s']" % key if key else "") + pstr
+    return pstr
+
+
 def classify_input_write(site: Site) -> Optional[str]:
     """Name of the allowed idiom a write to an input belongs to, or None."""
     fn = site.fi.qualname
     seg = site.text()
     root, path = site.path()
-    pstr = "".join(path)
-    if fn.endswith("AssemblyManager._deref_citations") and site.kind == "store" and ".qualifiers" in pstr and "citation" in pstr:
+    pstr = effective_path(site)
+    if fn.endswith("AssemblyManager._deref_citations") and site.kind == "store" and ".qualifiers" in pstr and "citation" in pstr and pstr.rstrip().endswith("]"):
         return "A1 citation slot store (dereference)"
-    if fn.endswith("AssemblyManager._ref_citations") and site.kind == "store" and ".qualifiers" in pstr and "citation" in pstr:
+    if fn.endswith("AssemblyManager._ref_citations") and site.kind == "store" and ".qualifiers" in pstr and "citation" in pstr and pstr.rstrip().endswith("]"):
         return "A2 citation slot store (re-reference)"
     if fn.endswith("AssemblyManager._ref_citations") and site.kind == "call:setdefault" and ".annotations" in pstr and "'references'" in seg.replace('"', "'"):
         return "A3 annotations.setdefault('references', []) (explicitly tolerated: absent == empty)"
@@ -535,7 +551,7 @@ def feature_writers(ctx, rule: str, eff: Effects, sites: List[Site]):
     seen = set()
     for s in sites:
         root, path = s.path()
-        pstr = "".join(path)
+        pstr = effective_path(s)
         key = (s.where, s.kind)
         if key in seen:
             continue
